@@ -88,8 +88,18 @@ class FormulaMaterializerMeta(InterfaceMeta):
 
         materializers_supporting_input = []
 
-        if input_type in cls.REGISTERED_INPUTS:
-            materializers_supporting_input.extend(cls.REGISTERED_INPUTS[input_type])
+        # Builtin types are registered by their bare name (e.g. "dict").
+        lookup_types = [input_type]
+        if datacls.__module__ == "builtins":
+            lookup_types.append(datacls.__qualname__)
+        for lookup_type in lookup_types:
+            if lookup_type in cls.REGISTERED_INPUTS:
+                materializers_supporting_input.extend(
+                    cls.REGISTERED_INPUTS[lookup_type]
+                )
+        materializers_supporting_input.sort(
+            key=lambda x: x.REGISTER_PRECEDENCE, reverse=True
+        )
 
         if output is None and materializers_supporting_input:
             return materializers_supporting_input[0]
